@@ -55,7 +55,9 @@ static bool plain_name(const std::string &n) {
 	if (n.empty() || n.size() > 200) return false;
 	for (size_t k = 0; k < n.size(); k++) { unsigned char c = (unsigned char)n[k]; bool ok = (c >= 'a' && c <= 'z') || (c >= 'A' && c <= 'Z') || (k > 0 && ((c >= '0' && c <= '9') || c == '.')) || (c != 0 && strchr("!\"#$%&()/,;?@_`'{}|~", c) != 0); if (!ok) return false; }
 	std::string l; for (char c : n) l.push_back((char)tolower((unsigned char)c));
-	static const char *kw[] = {"free", "inf", "infinity", "st", "s.t.", "st.", "subject", "to", "such", "that", "max", "min", "maximize", "minimize", "maximum", "minimum", "bounds", "bound", "end", "integer", "integers", "general", "generals", "binary", "binaries", "problem", "prob", "name", 0};
+	// the LP format's keywords only count at the beginning of a line, so most of them are ordinary names anywhere else; the ones left here
+	// are words of the bounds section, which takes them wherever they stand
+	static const char *kw[] = {"free", "inf", "infinity", 0};
 	for (int k = 0; kw[k]; k++) if (l == kw[k]) return false;
 	return true;
 }
